@@ -11,7 +11,9 @@ from pbt import netfs
 ID = 'C14'
 LEVEL = 'exploration'
 RULE = ('A case is a JSON list of ops tagged mgr=own|vip|rule|ep|svc (first '
-        'element: cfg with the CIDRs) run against real VipMgr (one or two '
+        'element: cfg with the CIDRs and the directory layout: plain dirs / '
+        'symlinks to relocated dirs / dirs below symlinked parents) run '
+        'against real VipMgr (one or two '
         'pools sharing a directory), RuleMgr, EndpointsMgr and '
         'NetworkResourceService objects on one temp directory; 2-5 owners '
         '(container dirs apps/<unique name>, two of them the same instance) '
@@ -44,16 +46,40 @@ ASSUMPTIONS = [
     'name is the same owner)',
     'a same-owner repeat of create_spec / picked alloc may either succeed '
     'or raise (both leave the directory unchanged)',
+    'the root and each configured directory (apps, rules, endpoints, vips, '
+    'service dir) is drawn as a plain directory, a symlink to a relocated '
+    'directory 1-3 levels down another tree, or a directory below a '
+    'symlinked parent; managers get the unresolved path; ownership is '
+    'judged by the harness ledger (model + which owner dirs exist) and a '
+    'link must name, by its physical location, the owner file of its owner',
     'per-case directories live on /dev/shm when writable (else the default '
     'temp dir, VERIF_TMP overrides) and are removed when the case ends',
 ]
 TRUSTED = ['pbt/netfs.py (models, FakeNetdev, FakeIptables)']
-BUDGET = {'quick': 12000, 'thorough': 320000}
+BUDGET = {'quick': 8000, 'thorough': 320000}
 
 CIDRS = ['10.10.0.0/30', '10.10.0.0/29', '10.10.0.0/29', '10.10.0.0/28']
 CIDR2 = [None, None, '10.10.1.0/30']
 SVC_CIDRS = [None, None, '192.168.0.0/30', '192.168.0.0/29']
 OLD = st.sampled_from([False, False, False, False, True])
+# how each configured directory is built (netfs.Engine._place): a plain
+# directory, a symlink to a relocated directory d levels down another tree,
+# or a directory below a symlinked parent
+PLACE = st.sampled_from(['real', 'real', 'real', 'link1', 'link2', 'link3',
+                         'under1', 'under2'])
+LAYOUT = st.one_of(
+    st.just(dict(netfs.DEFAULT_LAYOUT)),          # the default install
+    st.fixed_dictionaries({
+        'root': st.sampled_from(['real', 'real', 'link']),
+        'apps': PLACE, 'rules': PLACE, 'endpoints': PLACE, 'vips': PLACE,
+        'svc': PLACE,
+    }),
+    st.fixed_dictionaries({
+        'root': st.sampled_from(['real', 'real', 'link']),
+        'apps': PLACE, 'rules': PLACE, 'endpoints': PLACE, 'vips': PLACE,
+        'svc': PLACE,
+    }).map(dict),
+)
 
 
 def _fixed(mgr, op, **fields):
@@ -214,6 +240,7 @@ def case_strategy(draw, extra):
         'cidr': draw(st.sampled_from(CIDRS)),
         'cidr2': draw(st.sampled_from(CIDR2)),
         'svc_cidr': draw(st.sampled_from(SVC_CIDRS)),
+        'layout': draw(LAYOUT),
     }
     # owners that exist from the start (explicit ops, the case stays a list)
     ops = [
@@ -365,6 +392,45 @@ def fixed_cases():
         {'mgr': 'svc', 'op': 'restart'},
         {'mgr': 'svc', 'op': 'req', 'o': 2},
     ]
-    return [('aimed-svc-faults', svc_fault), ('aimed-fs-faults', fsf),
+    relocated = []
+    layouts = [
+        {'root': 'real', 'apps': 'real', 'rules': 'link2',
+         'endpoints': 'under1', 'vips': 'link1', 'svc': 'under2'},
+        {'root': 'link', 'apps': 'link3', 'rules': 'under2',
+         'endpoints': 'link2', 'vips': 'under1', 'svc': 'link1'},
+        {'root': 'link', 'apps': 'under1', 'rules': 'real',
+         'endpoints': 'real', 'vips': 'real', 'svc': 'real'},
+    ]
+    for pos, layout in enumerate(layouts):
+        ops = [
+            {'mgr': 'cfg', 'cidr': '10.10.0.0/30', 'cidr2': None,
+             'svc_cidr': '192.168.0.0/30', 'layout': layout},
+            _up(0), _up(1), _up(2),
+        ]
+        for slot in (0, 1, 2):
+            ops += [
+                {'mgr': 'vip', 'op': 'alloc', 'p': 0, 'o': slot, 'ip': None},
+                {'mgr': 'rule', 'op': 'create', 'o': slot, 'r': slot},
+                {'mgr': 'rule', 'op': 'create', 'o': slot, 'r': 0},
+                {'mgr': 'ep', 'op': 'create', 'o': slot, 's': 0},
+                {'mgr': 'svc', 'op': 'req', 'o': slot},
+            ]
+        ops += [
+            {'mgr': 'vip', 'op': 'gc', 'p': 0}, {'mgr': 'rule', 'op': 'gc'},
+            {'mgr': 'ep', 'op': 'gc'}, {'mgr': 'svc', 'op': 'restart'},
+            {'mgr': 'own', 'op': 'down', 'o': 1, 'veth': False},
+            {'mgr': 'vip', 'op': 'gc', 'p': 0}, {'mgr': 'rule', 'op': 'gc'},
+            {'mgr': 'ep', 'op': 'gc'}, {'mgr': 'svc', 'op': 'restart'},
+            {'mgr': 'rule', 'op': 'create', 'o': 2, 'r': 1},
+            {'mgr': 'rule', 'op': 'unlink', 'o': 0, 'r': 0},
+            {'mgr': 'ep', 'op': 'unlink_all', 'o': 0, 'proto': None,
+             'endpoint': None},
+            {'mgr': 'vip', 'op': 'free', 'p': 0, 'o': 0, 'sel': 0,
+             'who': 'holder'},
+            {'mgr': 'svc', 'op': 'del', 'o': 0},
+        ]
+        relocated.append(('aimed-layout-%d' % pos, ops))
+    return relocated + [
+        ('aimed-svc-faults', svc_fault), ('aimed-fs-faults', fsf),
             ('aimed-vip', vip), ('aimed-rule', rule), ('aimed-ep', ept),
             ('aimed-svc-small', svc), ('aimed-svc-16', svc_big)]
